@@ -235,3 +235,20 @@ def rel_to_json(msgs):
         else:
             out.append([m.message_type.value] + [x for x in desc(m)[1:]])
     return out
+
+
+def guarded(f):
+    """an exception escaping the real code on an input inside the property's quantifier is a violation, not a checker error"""
+    import functools, traceback
+
+    @functools.wraps(f)
+    def w(r, *a, **k):
+        try:
+            return f(r, *a, **k)
+        except Exception as ex:
+            tb = traceback.extract_tb(ex.__traceback__)
+            inside = [fr for fr in tb if "/scoda/" in fr.filename]
+            if not inside:
+                raise          # a bug of the oracle itself: checker error
+            r.fail("exception", {"fn": f.__name__, "args": list(a)}, f"{type(ex).__name__}: {ex} (raised at {inside[-1].filename.split('/scoda/')[-1]}:{inside[-1].lineno})", klass=f"exception:{type(ex).__name__}")
+    return w
